@@ -47,9 +47,9 @@ SIDS = ["everywhere", 1, 2, (1, 2)]
 
 
 def _metadata_alphabet():
-    L1 = np.linspace(0.0, 1.0, 2000)
+    L1 = np.linspace(0.0, 1.0, 1200)
     L2 = L1.copy()
-    L2[1000] += 0.25  # inside the "..." elision of str(ndarray)
+    L2[600] += 0.25  # inside the "..." elision of str(ndarray)
     P1 = np.array([1.0 / 3.0, 2.0 / 3.0])
     P2 = P1.copy()
     P2[0] += 1e-12  # 12th significant digit
@@ -385,7 +385,7 @@ def slot_patterns(n):
 
 ALL_T = list(range(len(TYPES)))
 ALL_S = list(range(len(SIDS)))
-MD_SMALL = ["none", "q2", "q2ra", "tup12", "lst12", "L1", "L2", "P1", "P2"]
+MD_SMALL = ["none", "q2", "q2ra", "tup12", "lst12", "L1", "L2"]
 MD_TINY = ["empty", "q2", "lst12", "tup12", "L1", "L2"]
 
 
